@@ -295,6 +295,34 @@ func c13Drive(w flamego.ResponseWriter, spy *rwSpy, m *rwModel, method string, o
 	return key, ""
 }
 
+// c13CountSpy counts the body bytes it is handed and keeps none of them.
+type c13CountSpy struct {
+	hdr   http.Header
+	bytes int64
+}
+
+func (s *c13CountSpy) Header() http.Header         { return s.hdr }
+func (s *c13CountSpy) WriteHeader(int)             {}
+func (s *c13CountSpy) Write(b []byte) (int, error) { s.bytes += int64(len(b)); return len(b), nil }
+
+// c13Large: one response whose body passes 2 GiB and 4 GiB (17 writes of one shared 256 MiB block that nobody
+// reads or copies): after every write Size() is the number of bytes forwarded.
+func c13Large() (bad string, writes int) {
+	block := make([]byte, 1<<28)
+	spy := &c13CountSpy{hdr: http.Header{}}
+	w := flamego.NewResponseWriter("GET", spy)
+	for i := 1; i <= 17; i++ {
+		n, err := w.Write(block)
+		if err != nil || n != len(block) {
+			return fmt.Sprintf("write %d of 256 MiB returned (%d, %v)", i, n, err), i
+		}
+		if int64(w.Size()) != spy.bytes {
+			return fmt.Sprintf("after %d writes of 256 MiB Size() = %d although %d bytes were forwarded", i, w.Size(), spy.bytes), i
+		}
+	}
+	return "", 17
+}
+
 // c13FlameSeq: the writer the handlers of a request see is a writer of that request alone. One application
 // instance serves reqs in order (alternating between two routes); the handler of request i performs reqs[i]
 // on c.ResponseWriter() next to a fresh model: status, size, pending hooks and hook observations start from
@@ -511,6 +539,23 @@ func c13Run(r *core.Run) {
 	r.Notes["bfs_depth_completed"] = completed
 	r.Merge(total)
 	c13FlameSeqs(r)
+	{
+		l := core.NewLocal()
+		bad, n := c13Large()
+		l.Evals += int64(n)
+		l.Transitions += int64(n)
+		l.Traces++
+		l.States++
+		l.NonTrivial++
+		if bad != "" {
+			l.Class("mismatch")
+			l.Violate("size-of-a-large-body", bad, c13Case{Method: "GET/17-writes-of-256-MiB"})
+		} else {
+			l.Class("large-body")
+		}
+		r.Bounds["large_body"] = "one GET response of 17 x 256 MiB (past 2 GiB and 4 GiB), Size() compared after every write"
+		r.Merge(l)
+	}
 	// status sweep: every status 100..999 in place of 201 in every sequence of up to sweepDepth operations
 	sweepDepth := 3
 	if r.Thorough() {
@@ -566,6 +611,10 @@ func c13Replay(raw json.RawMessage) (bool, string) {
 	var c c13Case
 	if err := json.Unmarshal(raw, &c); err != nil {
 		return false, err.Error()
+	}
+	if c.Method == "GET/17-writes-of-256-MiB" {
+		bad, _ := c13Large()
+		return bad != "", bad
 	}
 	if len(c.Requests) > 0 {
 		var reqs [][]int
